@@ -592,7 +592,7 @@ fn encode_args(
         let arg_bit = if arg_is_reg { current_param_mask_bit } else { 0 };
         // Verify this arg even applies to the param mask...
         if enc.contributes_to_param_mask() {
-            if current_param_mask_bit == 0 && arg_is_reg {
+            if current_param_mask_bit == 0 && arg_is_reg && !enc.is_always_immediate() {
                 // (the bit was shifted out; without a mask bit the register would be read back as a constant)
                 return Err(emitter.emit(error!(
                     message("too many arguments in instruction!"),
